@@ -76,6 +76,8 @@ var c04Alphabet = []func() rc.Message{
 	func() rc.Message { return &rc.Twrite{Fid: 1, Offset: 0, Data: []byte("ab")} },
 	func() rc.Message { return &rc.Twrite{Fid: 1, Offset: 2, Data: []byte("c")} },
 	func() rc.Message { return &rc.Treaddir{Fid: 1, Offset: 0, Count: 512} },
+	func() rc.Message { return &rc.Treaddir{Fid: 1, Offset: 0, Count: 0} },
+	func() rc.Message { return &rc.Tread{Fid: 1, Offset: 0, Count: 0} },
 	func() rc.Message { return &rc.Tfsync{Fid: 1} },
 	func() rc.Message { return &rc.Treadlink{Fid: 1} },
 	func() rc.Message { return &rc.Tgetattr{Fid: 1, Mask: rc.GetattrAll} },
@@ -174,7 +176,7 @@ func genRandomReq(ch func(int) int, bound func() []uint32) rc.Message {
 	case 20:
 		return &rc.Twrite{Fid: fid(), Offset: uint64(ch(6)), Data: []byte("wxyz")[:ch(5)]}
 	case 21:
-		return &rc.Treaddir{Fid: fid(), Offset: uint64(ch(4)), Count: uint32(30 + ch(300))}
+		return &rc.Treaddir{Fid: fid(), Offset: uint64(ch(4)), Count: []uint32{0, 0, 24, 60, 330}[ch(5)] + uint32(ch(2))}
 	case 22:
 		return []rc.Message{&rc.Tfsync{Fid: fid()}, &rc.Treadlink{Fid: fid()}, &rc.Tstatfs{Fid: fid()}, &rc.Tlock{Fid: fid(), Type: uint8(ch(3))}}[ch(4)]
 	case 23:
